@@ -601,6 +601,50 @@ def np_linspace(a, b, n=50):
     return Tensor((n,), lambda i: S.add(a, S.div(S.mul(S.sub(b, a), i), S.sub(n, 1))))
 
 
+@model("numpy.searchsorted")
+def np_searchsorted(a, v, side="left"):
+    """side='left' on an ascending 1-d array: the index k with a[j] < v for j < k and a[j] >= v for j >= k (assumed
+    contract of numpy's binary search; the array must be sorted, which the contracts using it establish)"""
+    if side != "left":
+        raise Unsupported("searchsorted side != left")
+    a = to_tensor(a, fresh=False)
+    if a.ndim != 1:
+        raise Unsupported("searchsorted on a non 1-d array")
+    fa = a.frozen()
+    n = a.shape[0]
+    c = ctx()
+    if c.concrete:
+        import bisect
+        vals = [float(fa.at(i)) for i in range(int(unwrap(n)))]
+        one = lambda x: bisect.bisect_left(vals, float(S.pynum(x)))
+        if isinstance(v, Tensor):
+            return v.map(one, dtype="int")
+        return one(v)
+    f = z3.Function(f"ssort{a.alloc}", z3.RealSort(), z3.IntSort())
+    seen = c.uf_cache.setdefault(("searchsorted", a.alloc), {})
+
+    def one(x):
+        zx = S.to_real(S.z(x))
+        k = f(zx)
+        if S.eid(zx) not in seen:
+            seen[S.eid(zx)] = True
+            S.PIN.append(zx)
+            c.defs.append(z3.And(k >= 0, k <= S.z(n)))
+            c.mark_nonneg(k)
+            c.add_index_term(k)
+            c.add_index_term(k - 1)
+            c.add_index_term(z3.IntVal(0))
+            c.add_index_term(S.z(n) - 1)
+            c.add_forall((n,), lambda j, zx=zx, k=k: z3.And(z3.Implies(S.z(j) < k, S.to_real(S.z(fa.at(j))) < zx),
+                                                            z3.Implies(S.z(j) >= k, S.to_real(S.z(fa.at(j))) >= zx)),
+                         "searchsorted")
+        return Sym(k)
+
+    if isinstance(v, Tensor):
+        return v.map(one, dtype="int")
+    return one(v)
+
+
 @model("numpy.divmod")
 def np_divmod(a, b):
     q = Tensor.broadcast(a, b, S.floordiv)
